@@ -116,9 +116,30 @@ def gen_case(rng, i):
                 if isinstance(p[0], str) or isinstance(p[1], str):
                     p[0] = ['field', 'a', 0, 'var']
                     p[1] = ['field', 'b', 0, 'var']
+        multiline = i % 6 == 1
+        if multiline and q['kind'] == 'select' and not q.get('group') and not any(it['kind'] == 'agg' for it in q['items']):
+            # keep the cells in the output: no filter, and the select list is (or starts with) a star
+            q['where'] = None
+            q['top'] = None
+            if q.get('except') is None:
+                q['items'] = [{'kind': 'star'}] + [it for it in q['items'] if it['kind'] == 'expr' and it['expr'][0] == 'field'][:1]
+                for it in q['items']:
+                    it.pop('alias', None)
+        if multiline:
+            # cells that hold a line break: representable by every front-end except the CSV dialects other than quoted_rfc, which are not used for these cases
+            for t in (A, B or []):
+                for r in t:
+                    for j in range(len(r)):
+                        if rng.random() < 0.35:
+                            r[j] = rng.choice(['l1\nl2', 'x\n', '\ny', 'a,b\nc'])
+        if has_header and i % 9 == 4:
+            # the query was built for the full table; the front-ends now get only its header: a CSV file with one line, a zero-row dataframe
+            # with named columns, an empty sqlite table, an empty list with column names
+            A = []
         case = common.case_json(q, {'A': A, 'B': B, 'a_names': a_names, 'b_names': b_names})
         ctx = qast.Ctx(a_names, b_names)
         case['query_text'] = qast.render(q, ctx, 'py')
+        case['multiline'] = multiline
         return case
     return None
 
@@ -128,7 +149,7 @@ def reference(ns, case):
     return r
 
 
-def acceptable(ref):
+def acceptable(ref, multiline=False):
     if ref['error'] is not None:
         return False
     if ref['header'] is not None and len(ref['header']) == 0:
@@ -139,7 +160,7 @@ def acceptable(ref):
         for v in r:
             if v is None or isinstance(v, (list, float)):
                 return False
-            if isinstance(v, str) and any(c in v for c in '\t\r\n'):
+            if isinstance(v, str) and any(c in v for c in ('\t\r' if multiline else '\t\r\n')):
                 return False
     return True
 
@@ -227,7 +248,7 @@ def run_shard(spec, res):
             idx = n * spec['k'] + spec['i']
             case = gen_case(rng, idx)
             ref = reference(ns, case)
-            if not acceptable(ref):
+            if not acceptable(ref, bool(case.get('multiline'))):
                 res.count('cases_skipped_not_type_agnostic')
                 continue
             exp_rows = norm_rows(ref['rows'])
@@ -263,7 +284,11 @@ def run_shard(spec, res):
 
             # 2. query_csv file -> file  (the CSV dialect of the files rotates: delimiter incl. non-ASCII and multi-character, policy)
             dlm, pol, cli_dlm = DIALECTS[idx % len(DIALECTS)]
-            if not refcsv.representable(([an] if an else []) + A + (B or []) + ([bn] if bn else []), dlm, pol, 'utf-8') or not refcsv.representable([[stringify(v) for v in r] for r in ref['rows']] or [['x']], dlm, pol, 'utf-8'):
+            ml = bool(case.get('multiline'))
+            if ml:
+                dlm, pol, cli_dlm = (',', 'quoted_rfc', ',')
+                res.count('multiline_cases')
+            elif not refcsv.representable(([an] if an else []) + A + (B or []) + ([bn] if bn else []), dlm, pol, 'utf-8') or not refcsv.representable([[stringify(v) for v in r] for r in ref['rows']] or [['x']], dlm, pol, 'utf-8'):
                 dlm, pol, cli_dlm = DIALECTS[0]
             res.count('dialect:%s/%s' % (cli_dlm, pol))
             # every case in a directory of its own; two cases in three call their files in.csv / jn.csv, so that the same relative join-table id
@@ -296,7 +321,7 @@ def run_shard(spec, res):
 
             # 3. the command line: files, stdin/stdout, the three output formats
             base = ['--delim', cli_dlm, '--policy', pol, '--query', qtext_csv] + (['--with-headers'] if has_header else [])
-            fmt = ['input', 'csv', 'tsv'][n % 3]
+            fmt = 'input' if ml else ['input', 'csv', 'tsv'][n % 3]
             dl, pol_o = {'input': (dlm, pol), 'csv': (',', 'quoted'), 'tsv': ('\t', 'simple')}[fmt]
             p = run_cli(base + ['--input', inp, '--output', outp, '--out-format', fmt], cd if n % 2 else d)
             res.count('cli_runs')
@@ -309,7 +334,7 @@ def run_shard(spec, res):
             if B is None or True:
                 with open(inp, 'rb') as f:
                     data = f.read()
-                fmt2 = ['csv', 'tsv', 'input'][n % 3]
+                fmt2 = 'input' if ml else ['csv', 'tsv', 'input'][n % 3]
                 dl2, pol2 = {'input': (dlm, pol), 'csv': (',', 'quoted'), 'tsv': ('\t', 'simple')}[fmt2]
                 # a join table is found relative to the current directory when the input comes from stdin
                 p = run_cli(base + ['--out-format', fmt2], cd, stdin=data)
@@ -350,14 +375,14 @@ def run_shard(spec, res):
                 err = None
                 rows = hdr = None
                 try:
-                    ns.sqlite.query_sqlite_to_csv(qtext, conn, 't', outp, ',', 'quoted', 'utf-8', [])
+                    ns.sqlite.query_sqlite_to_csv(qtext, conn, 't', outp, ',', 'quoted_rfc' if ml else 'quoted', 'utf-8', [])
                     with open(outp, 'rb') as f:
-                        rows, hdr = parse_out(f.read(), ',', 'quoted', out_has_header)
+                        rows, hdr = parse_out(f.read(), ',', 'quoted_rfc' if ml else 'quoted', out_has_header)
                 except Exception as e:
                     err = '%s: %s' % (util.error_class(e), str(e)[:100])
                 conn.close()
                 cmp('sqlite', rows, hdr, err)
-                if n % 2 == 0:
+                if n % 2 == 0 or ml:
                     p = run_cli(['sqlite', db, '--input', 't', '--query', qtext, '--out-format', 'csv'], d)
                     res.count('cli_runs')
                     if p.returncode != 0:
@@ -434,8 +459,8 @@ def plan(tier, seed):
 def summarize(tier, seed, m):
     fe = {k[10:]: v for k, v in m['counters'].items() if k.startswith('front_end:')}
     return {
-        'rule': 'rectangular string tables (1-5 rows, 2-4 columns, cells with spaces, quotes, commas, non-ASCII; no tab / line breaks) with and without header; type-agnostic structured queries (select / where / order / distinct / distinct count / top / inner join / update / except / aggregates) rotating systematically over clause combinations; each executed through query_table (reference) and through 8 entry points: rbql.query with user-written iterator / writer / registry classes, query_csv, CLI file -> file and stdin -> stdout in the three output formats, query_pandas_dataframe, query_sqlite_to_csv, CLI sqlite; plus failing queries (parsing, execution, IO, syntax) x {file, stdout, sqlite} for exit status / Error [type] on stderr, and warning routing. distinct_nontrivial = distinct (query, tables) with a non-empty result + failing scenarios.',
-        'required': ['cases', 'front_end:query+user-classes', 'front_end:query_csv', 'front_end:pandas', 'front_end:sqlite', 'front_end:cli-sqlite', 'front_end:cli-file-tsv', 'front_end:cli-file-csv', 'front_end:cli-file-input', 'front_end:cli-stdin-stdout-csv', 'cli_failing_runs', 'cli_warning_runs'],
+        'rule': 'rectangular string tables (0-5 rows, 1-4 columns, cells with spaces, quotes, commas, non-ASCII, empty; one case in six with line breaks inside cells, run through the quoted_rfc dialect; duplicated column names in 15% of the headed cases; no tabs) with and without header; type-agnostic structured queries (select / where / order / distinct / distinct count / top / inner join / update / except / aggregates) rotating systematically over clause combinations; each executed through query_table (reference) and through 8 entry points: rbql.query with user-written iterator / writer / registry classes, query_csv, CLI file -> file and stdin -> stdout in the three output formats, query_pandas_dataframe, query_sqlite_to_csv, CLI sqlite; plus failing queries (parsing, execution, IO, syntax) x {file, stdout, sqlite} for exit status / Error [type] on stderr, and warning routing. distinct_nontrivial = distinct (query, tables) with a non-empty result + failing scenarios.',
+        'required': ['cases', 'multiline_cases', 'front_end:query+user-classes', 'front_end:query_csv', 'front_end:pandas', 'front_end:sqlite', 'front_end:cli-sqlite', 'front_end:cli-file-tsv', 'front_end:cli-file-csv', 'front_end:cli-file-input', 'front_end:cli-stdin-stdout-csv', 'cli_failing_runs', 'cli_warning_runs'],
         'extra': {'front_end_comparisons': fe},
         'assumptions': ['query_table is the reference (pinned by C01-C05, C07)', 'types are not compared across back ends (CSV and pandas stringify): cells are compared after the stringification every CSV sink applies', 'scratch files are named in.csv / jn.csv / in_<n>.csv / jn_<n>.csv in a directory c<n> per case: a path containing an a./b. token under a header is the C08 known finding, not a front-end difference'],
     }
